@@ -26,6 +26,8 @@ Decided (label, scope and stack-pointer discipline of the code generator; struct
  R9 K9  query cursors: a `return` out of a `map` body releases the loop's cursor (typestate of
         query_iter_stack) - today a KNOWN FINDING, see known_findings.json.
  R10 K1 the fact literal of `map .. as x` is lowered in the enclosing scope, before `x` is added.
+ R11 K6 QueryNext names the struct it binds after the fact on the cursor (the type lowering gave it).
+ R12 K9 the Substruct template leaves one value on every path (MStructSet or Pop after the source).
 Not decided: type mismatches, undefined variables and stack underflow for arbitrary accepted
 programs (needs the soundness of the type checker in lower.rs; value-level)."""
 from rules.core import emit, pat
@@ -360,6 +362,8 @@ def struct_literal_rule(F, rep):
     self_comparison_rule(F, rep)
     cursor_release_rule(F, rep)
     map_scope_rule(F, rep)
+    map_binding_type_rule(F, rep)
+    substruct_balance_rule(F, rep)
 
 
 def arity_rule(F, rep):
@@ -511,3 +515,49 @@ def map_scope_rule(F, rep):
               "the map statement's fact literal is lowered before the loop's block is entered and the `as` binding is added",
               "lower_statements lowers a map statement's fact literal after the `as` binding is already in scope: a literal that refers to its own binding type-checks, "
               "but the VM evaluates it before the binding exists (undefined variable)", ls.site())
+
+
+def map_binding_type_rule(F, rep):
+    """R11: lowering gives the `as` binding of `map F[..] as x` the type `struct F`; the VM must build that value
+    as a struct named after the fact on the cursor, not after the variable, or the binding fails every later
+    `fits_type` against `struct F` (publish/emit fields, function arguments)."""
+    step = F.fn("aranya_policy_vm::machine::RunState::step")
+    sws = step.discr_switches("instructions::Instruction")
+    outer = step.outer_switch(sws) if sws else None
+    if not outer or "QueryNext" not in outer[1]:
+        rep.anchor_missing("RunState::step arm for QueryNext")
+        return
+    reg = step.dominated_region(outer[1]["QueryNext"])
+    news = [c for c in step.calls if c.bb in reg and c.is_("Struct::new")]
+    ok = len(news) == 1
+    og = set()
+    if ok:
+        og = step.origins(news[0].args[0], through_calls=("Clone::clone", "Option::ok_or_else", "Try::branch", "last_mut", "slice::last_mut", "DerefMut::deref_mut", "Deref::deref"))
+        ok = "field:query_iter_stack" in og and "field:name" in og
+    rep.check(ok, "vm|QueryNext|binding-named-after-fact", "K6 provenance",
+              "QueryNext builds the binding as Struct::new(<name of the fact on the cursor>, ..)",
+              "the VM's QueryNext names the struct it binds after %s instead of the fact on the query cursor: the `as` binding of a map is typed `struct <Fact>` by the compiler "
+              "but fails every fits_type check against that type at run time" % ("the instruction's identifier (the variable)" if news else "nothing"), step.site())
+
+
+def substruct_balance_rule(F, rep):
+    """R12: `e substruct T` leaves exactly one value. The template pushes StructNew(T) and the source struct and then
+    folds them with MStructGet/MStructSet - but only when T has fields (the instructions carry a NonZeroUsize). On
+    the other path the source value must be dropped some other way (Pop), or two values stay on the stack."""
+    f = F.fn(CS + "compile_typed_expression")
+    sk = f.outer_switch(f.discr_switches("thir::ExprKind"))
+    if not sk or "Substruct" not in sk[1]:
+        rep.anchor_missing("compile_typed_expression: Substruct arm")
+        return
+    reg = f.dominated_region(sk[1]["Substruct"])
+    evs = emit.events(F, f, reg)
+    comp = [e for e in evs if e.kind == "compile"]
+    fold = [e for e in evs if e.kind == "emit" and e.variant in ("MStructSet", "Pop")]
+    ok = len(comp) == 1 and bool(fold)
+    if ok:
+        exits = {b for b in range(f.nblocks) if b not in reg and not f.is_cleanup(b) and not f.is_unreachable_block(b) and any(p in reg for p in f.pred(b))}
+        ok = emit.must_pass(f, comp[0].bb, [e.bb for e in fold], exits | ok_return_blocks(f), emit.err_edges(f))
+    rep.check(ok, "template|Substruct|one-value-on-every-path", "K9 emission template",
+              "after compiling the source struct every path through the Substruct arm emits MStructSet (fold into the new struct) or Pop (drop the source)",
+              "compile_typed_expression's Substruct arm has a path (target struct without fields) on which neither MStructGet/MStructSet nor Pop is emitted after the source struct "
+              "was compiled: two values stay on the stack and the surrounding expression consumes the wrong one", f.site())
